@@ -2,7 +2,7 @@
 """Generate overlay/units/numtraits_conv.vrs (C19, integer part): ToPrimitive::to_{u,i}{8..128} for $BUint/$BInt.
 The real bodies come from one macro per family (`to_int!`, `to_uint!`), instantiated per primitive type, so the
 annotated copies are instances of one template per family.
-Usage: python3 overlay/scripts/gen_numtraits_conv.py > overlay/units/numtraits_conv.vrs"""
+Usage: python3 overlay/scripts/gen_numtraits_conv.py   (writes overlay/units/numtraits_conv{,2,3}.vrs)"""
 import sys
 
 UT = [('u8', 8), ('u16', 16), ('u32', 32), ('u64', 64), ('u128', 128)]
@@ -680,13 +680,248 @@ fn ToPrimitive__to_@T@(&self) -> /*@{*/(r: /*}@*/Option<@T@>/*@{*/)/*}@*/
 }
 """
 
+TCD = r"""
+//! spec bn_numtraits_tcd
+// digit i of the (infinite) two's-complement expansion of an integer n in base 2^DB
+pub open spec fn bn_numtraits_tcd(n: int, i: int) -> int { (n / bn_bp(i as nat)) % bn_base() }
+//! proof bn_lemma_numtraits_floor_compl
+// floor(n/p) through the complement -n-1
+pub proof fn bn_lemma_numtraits_floor_compl(n: int, p: int)
+    requires p > 0
+    ensures n / p == -1 - (-n - 1) / p
+{
+    let m = -n - 1;
+    lemma_fundamental_div_mod(m, p);
+    lemma_mod_bound(m, p);
+    let q = m / p; let r = m % p;
+    assert(n == p * (-q - 1) + (p - 1 - r)) by (nonlinear_arith) requires m == p * q + r, n == -m - 1;
+    lemma_fundamental_div_mod_converse(n, p, -q - 1, p - 1 - r);
+}
+//! proof bn_lemma_numtraits_divmod2
+// two-level division for arbitrary (also negative) n
+pub proof fn bn_lemma_numtraits_divmod2(n: int, p: int, b: int)
+    requires p > 0, b > 0
+    ensures p * b > 0, n / (p * b) == (n / p) / b, n % (p * b) == p * ((n / p) % b) + n % p
+{
+    lemma_fundamental_div_mod(n, p);
+    lemma_mod_bound(n, p);
+    let q = n / p; let r = n % p;
+    lemma_fundamental_div_mod(q, b);
+    lemma_mod_bound(q, b);
+    let q2 = q / b; let r2 = q % b;
+    assert(p * b > 0) by (nonlinear_arith) requires p > 0, b > 0;
+    assert(n == q2 * (p * b) + (p * r2 + r)) by (nonlinear_arith) requires n == p * q + r, q == b * q2 + r2;
+    assert(p * r2 + r < p * b) by (nonlinear_arith) requires 0 <= r2 < b, 0 <= r < p;
+    assert(p * r2 + r >= 0) by (nonlinear_arith) requires 0 <= r2, 0 <= r, p > 0;
+    lemma_fundamental_div_mod_converse(n, p * b, q2, p * r2 + r);
+}
+//! proof bn_lemma_numtraits_tcd_val
+// the first k two's-complement digits of n are the value n mod base^k
+pub proof fn bn_lemma_numtraits_tcd_val(n: int, ds: Seq<$D>, k: nat)
+    requires forall|j: int| 0 <= j < k ==> ds[j] as int == bn_numtraits_tcd(n, j)
+    ensures bn_val(ds, k) == n % bn_bp(k)
+    decreases k
+{
+    if k == 0 {
+        lemma_pow0(bn_base());
+        assert(bn_bp(0) == 1);
+        lemma_small_mod(0, 1);
+        assert(n % 1 == 0);
+    } else {
+        let k1 = (k - 1) as nat;
+        bn_lemma_numtraits_tcd_val(n, ds, k1);
+        bn_lemma_bp_succ(k1);
+        bn_lemma_bp_pos(k1);
+        let p = bn_bp(k1);
+        bn_lemma_numtraits_divmod2(n, p, bn_base());
+        assert(ds[k1 as int] as int == (n / p) % bn_base());
+        lemma_mul_is_commutative(p, (n / p) % bn_base());
+    }
+}
+//! proof bn_lemma_numtraits_tcd_small
+pub proof fn bn_lemma_numtraits_tcd_small(n: int, j: nat)
+    requires -bn_bp(j) <= n < bn_bp(j)
+    ensures n / bn_bp(j) == (if 0 > n { -1int } else { 0 }), bn_numtraits_tcd(n, j as int) == (if 0 > n { bn_base() - 1 } else { 0 })
+{
+    let p = bn_bp(j);
+    bn_lemma_bp_pos(j);
+    if n >= 0 {
+        lemma_basic_div(n, p);
+        lemma_small_mod(0, bn_base() as nat);
+    } else {
+        assert(n == p * (-1) + (n + p)) by (nonlinear_arith);
+        lemma_fundamental_div_mod_converse(n, p, -1, n + p);
+        assert(-1 == bn_base() * (-1) + (bn_base() - 1));
+        lemma_fundamental_div_mod_converse(-1, bn_base(), -1, bn_base() - 1);
+    }
+}
+//! proof bn_lemma_numtraits_tcd_down
+// sign padding digits between lo and hi: the quotient by base^lo is the sign too
+pub proof fn bn_lemma_numtraits_tcd_down(n: int, lo: nat, hi: nat)
+    requires lo <= hi, n / bn_bp(hi) == (if 0 > n { -1int } else { 0 }),
+        forall|j: int| lo <= j < hi ==> bn_numtraits_tcd(n, j) == (if 0 > n { bn_base() - 1 } else { 0 })
+    ensures n / bn_bp(lo) == (if 0 > n { -1int } else { 0 })
+    decreases hi - lo
+{
+    if lo < hi {
+        let h1 = (hi - 1) as nat;
+        bn_lemma_bp_succ(h1);
+        bn_lemma_bp_pos(h1);
+        let p = bn_bp(h1);
+        bn_lemma_numtraits_divmod2(n, p, bn_base());
+        let x = n / p;
+        lemma_fundamental_div_mod(x, bn_base());
+        assert(x % bn_base() == bn_numtraits_tcd(n, h1 as int));
+        bn_lemma_numtraits_tcd_down(n, lo, h1);
+    }
+}
+"""
+
+LEMMAS_FROM_S = r"""
+//! proof bn_lemma_numtraits_strunc_@T@
+pub proof fn bn_lemma_numtraits_strunc_@T@(y: @T@)
+    ensures (y as $D) as int == (y as int) % pow2($DB) as int
+{
+    bn_lemma_bits_pow2_db();
+    assert((y as $D) as u128 == ((y as i128) as u128) % ${BASE}u128) by (bit_vector);
+    let z = (y as i128) as u128;
+    assert(y >= 0 ==> z as int == y as int) by (bit_vector) requires z == (y as i128) as u128;
+    assert(0 > y ==> z as int == y as int + 0x1_0000_0000_0000_0000_0000_0000_0000_0000int) by (bit_vector) requires z == (y as i128) as u128;
+    if 0 > y {
+        bn_lemma_numtraits_pow2_128();
+        lemma_pow2_adds($DB, (128 - $DB) as nat);
+        lemma_mul_is_commutative(pow2($DB) as int, pow2((128 - $DB) as nat) as int);
+        lemma_mod_multiples_vanish(pow2((128 - $DB) as nat) as int, y as int, pow2($DB) as int);
+    }
+}
+//! proof bn_lemma_numtraits_sshr_@T@
+// arithmetic shift right is floor division
+pub proof fn bn_lemma_numtraits_sshr_@T@(n: @T@, s: @U@)
+    requires @TB@ > s as int
+    ensures (n >> s) as int == (n as int) / pow2(s as nat) as int
+    decreases (if 0 > n { 1int } else { 0int })
+{
+    lemma_pow2_pos(s as nat);
+    if n >= 0 {
+        let u = n as @U@;
+        assert(n >= 0 ==> (n >> s) as @U@ == (n as @U@) >> s) by (bit_vector) requires s < @TB@@U@;
+        assert(n >= 0 ==> (n >> s) >= 0) by (bit_vector) requires s < @TB@@U@;
+        assert(n >= 0 ==> (n as @U@) as int == n as int) by (bit_vector);
+        let y = n >> s;
+        assert(y >= 0 ==> (y as @U@) as int == y as int) by (bit_vector);
+        vstd::bits::lemma_@U@_shr_is_div(u, s);
+    } else {
+        let m = !n;
+        assert(0 > n ==> (n >> s) == !((!n) >> s)) by (bit_vector) requires s < @TB@@U@;
+        assert(0 > n ==> !n >= 0) by (bit_vector);
+        assert((!n) as int == -(n as int) - 1) by (bit_vector);
+        let w = m >> s;
+        assert((!w) as int == -(w as int) - 1) by (bit_vector);
+        bn_lemma_numtraits_sshr_@T@(m, s);
+        bn_lemma_numtraits_floor_compl(n as int, pow2(s as nat) as int);
+    }
+}
+"""
+
+BI_FROM_S = r"""
+//! fn impl(FromPrimitivefor$BInt<N>)::from_@T@ [ext_trait]
+fn FromPrimitive__from_@T@(n: @T@) -> /*@{*/(r: /*}@*/Option<Self>/*@{*/)/*}@*/
+    /*@{*/ requires bn_wf(N)
+    ensures (r is Some) == (-Self::bn_m() <= 2 * (n as int) && Self::bn_m() > 2 * (n as int)), r matches Some(v) ==> v@ == n as int /*}@*/
+{
+    let INT_BITS: usize = <@T@>::BITS as usize;
+    let initial_digit = if n.is_negative() {
+        $D::MAX
+    } else {
+        $D::MIN
+    };
+    let mut out = Self::from_bits($BUint::from_digits([initial_digit; N]));
+    let mut i = 0;
+    /*@{*/ let ghost nn = n as int;
+    let ghost mm = Self::bn_m();
+    proof { bn_lemma_bp_pos(N as nat); } /*}@*/
+    while i << crate::digit::$D::BIT_SHIFT < INT_BITS
+        /*@{*/ invariant INT_BITS == @TB@, bn_wf(N), i * $DB <= @TB@ + $DB, i <= @TB@, nn == n as int, mm == bn_bp(N as nat), mm > 0,
+            initial_digit == (if 0 > nn { $DMAX$D } else { 0$D }),
+            forall|j: int| 0 <= j < N && j < i ==> out.bits.digits[j] as int == bn_numtraits_tcd(nn, j),
+            forall|j: int| i <= j < N ==> out.bits.digits[j] == initial_digit,
+            forall|j: int| N <= j < i ==> bn_numtraits_tcd(nn, j) == initial_digit as int
+        decreases @TB@ + $DB - i * $DB /*}@*/
+    {
+        let d = (n >> (i << crate::digit::$D::BIT_SHIFT)) as $D;
+        /*@{*/ proof {
+            vstd::bits::lemma_usize_shl_is_mul(i, ${LOGDB}usize);
+            bn_lemma_numtraits_sshr_@T@(n, (i * $DB) as @U@);
+            bn_lemma_numtraits_strunc_@T@(n >> ((i * $DB) as @U@));
+            bn_lemma_bits_bp_pow2(i as nat);
+            bn_lemma_bits_pow2_db();
+            assert($DB * i == i * $DB) by (nonlinear_arith);
+            assert(d as int == bn_numtraits_tcd(nn, i as int));
+        } /*}@*/
+        if d != initial_digit {
+            if i < N {
+                out.bits.digits[i] = d;
+            } else {
+                /*@{*/ proof {
+                    if -mm <= 2 * nn && mm > 2 * nn {
+                        if i > N { lemma_pow_increases(bn_base() as nat, N as nat, i as nat); }
+                        bn_lemma_numtraits_tcd_small(nn, i as nat);
+                    }
+                } /*}@*/
+                return None;
+            }
+        }
+        i += 1;
+    }
+    /*@{*/ proof {
+        vstd::bits::lemma_usize_shl_is_mul(i, ${LOGDB}usize);
+        bn_lemma_numtraits_pow2_@TB@();
+        bn_lemma_bits_bp_pow2(i as nat);
+        assert($DB * i == i * $DB) by (nonlinear_arith);
+        if i * $DB > @TB@ { lemma_pow2_strictly_increases(@TB@, (i * $DB) as nat); }
+        // |n| < 2^TB <= bp(i): every digit from i up is the sign padding
+        let ds = out.bits.digits@;
+        assert forall|j: int| 0 <= j < N implies ds[j] as int == bn_numtraits_tcd(nn, j) by {
+            if j >= i {
+                if j > i { lemma_pow_increases(bn_base() as nat, i as nat, j as nat); }
+                bn_lemma_numtraits_tcd_small(nn, j as nat);
+            }
+        }
+        bn_lemma_numtraits_tcd_val(nn, ds, N as nat);
+        if i >= N {
+            bn_lemma_numtraits_tcd_small(nn, i as nat);
+            bn_lemma_numtraits_tcd_down(nn, N as nat, i as nat);
+        } else {
+            lemma_pow_increases(bn_base() as nat, i as nat, N as nat);
+            bn_lemma_numtraits_tcd_small(nn, N as nat);
+        }
+        lemma_fundamental_div_mod(nn, mm);
+        lemma_mod_bound(nn, mm);
+        bn_lemma_sval_twos(ds, N as nat);
+        assert(mm * (-1) == -mm);
+        assert(mm * 0 == 0);
+    } /*}@*/
+    if n.is_negative() != out.is_negative() {
+        return None;
+    }
+    Some(out)
+}
+"""
+
 def inst(t, T, TB):
     return t.replace('@TB@', str(TB)).replace('@T@', T).replace('@HALFM1@', HALFM1[TB])
 
 
-print('//! raw bn_numtraits_conv_note')
-print('// numtraits_conv.vrs is GENERATED by overlay/scripts/gen_numtraits_conv.py -- re-run the script instead of editing.')
-only = sys.argv[1:]   # developer aid: restrict the fn entries (lemmas are always emitted), e.g. `to_u32 from_u64`
+import os, io
+OUT = {1: io.StringIO(), 2: io.StringIO(), 3: io.StringIO()}
+CUR = [1]
+
+
+def w(t):
+    OUT[CUR[0]].write(t)
+
+
+only = sys.argv[1:]   # developer aid: restrict the fn entries (lemmas are always emitted), e.g. `to_u32 from_u64 bi_to_i16`
 
 
 def want(name):
@@ -705,28 +940,7 @@ pub proof fn bn_lemma_numtraits_mod_le(x: int, m: int)
     assert(m * q >= 0) by (nonlinear_arith) requires q >= 0, m > 0;
 }
 '''
-w = sys.stdout.write
-for T, TB in UT:
-    w(inst(LEMMAS_U, T, TB).lstrip('\n'))
-for T, U, TB in ST:
-    w(inst(LEMMAS_S, T, TB).replace('@U@', U).replace('@HALF@', HALF[TB]).lstrip('\n'))
-w(MOD_LE)
-for T, TB in UT:
-    w(inst(LEMMAS_FROM_U, T, TB).lstrip('\n'))
-for T, TB in UT:
-    if want('to_' + T):
-        w(inst(BU_TO_U, T, TB).lstrip('\n'))
-        w(inst(BI_TO_U, T, TB).lstrip('\n'))
-for T, U, TB in ST:
-    if want('to_' + T):
-        w(inst(BU_TO_S, T, TB).replace('@U@', U).lstrip('\n'))
-for T, TB in UT[3:]:
-    if want('from_' + T):
-        w(inst(BU_FROM_U, T, TB).lstrip('\n'))
-for T, U, TB, ARG in [('i64', 'u64', 64, 'int__'), ('i128', 'u128', 128, 'n')]:
-    if want('from_' + T):
-        w(inst(BU_FROM_S, T, TB).replace('@U@', U).replace('@ARG@', ARG).lstrip('\n'))
-w('''//! proof bn_lemma_numtraits_zero_digits
+ZERO_DIGITS = '''//! proof bn_lemma_numtraits_zero_digits
 pub proof fn bn_lemma_numtraits_zero_digits(d: Seq<$D>, n: nat)
     requires bn_val(d, n) == 0
     ensures forall|j: int| 0 <= j < n ==> d[j] == 0
@@ -735,11 +949,25 @@ pub proof fn bn_lemma_numtraits_zero_digits(d: Seq<$D>, n: nat)
         if d[j] != 0 { bn_lemma_val_pos(d, n, j); bn_lemma_bp_pos(j as nat); }
     }
 }
-''')
-for T, TB in UT:
-    if want('from_' + T):
-        w(inst(BI_FROM_U, T, TB).lstrip('\n'))
+'''
 ALLD = ['u64', 'u32', 'u16', 'u8']
+NOTE = '// GENERATED by overlay/scripts/gen_numtraits_conv.py (numtraits_conv.vrs: ToPrimitive for $BUint + shared lemmas; numtraits_conv2.vrs: ToPrimitive for $BInt; numtraits_conv3.vrs: FromPrimitive) -- re-run the script instead of editing.\n'
+# ---- unit numtraits_conv: shared lemmas + ToPrimitive for $BUint
+CUR[0] = 1
+w('//! raw bn_numtraits_conv_note\n' + NOTE)
+for T, TB in UT:
+    w(inst(LEMMAS_U, T, TB).lstrip('\n'))
+for T, U, TB in ST:
+    w(inst(LEMMAS_S, T, TB).replace('@U@', U).replace('@HALF@', HALF[TB]).lstrip('\n'))
+for T, TB in UT:
+    if want('to_' + T):
+        w(inst(BU_TO_U, T, TB).lstrip('\n'))
+for T, U, TB in ST:
+    if want('to_' + T):
+        w(inst(BU_TO_S, T, TB).replace('@U@', U).lstrip('\n'))
+# ---- unit numtraits_conv2: ToPrimitive for $BInt
+CUR[0] = 2
+w('//! raw bn_numtraits_conv2_note\n' + NOTE)
 for T, U, TB in ST:
     ds = [d for d in ALLD if d != DIGIT_SD.get(T)]
     if T != 'i8':   # i8::is_negative is already specified by unit slices (same contract)
@@ -748,7 +976,35 @@ for T, U, TB in ST:
     if T != 'i128':
         w(inst(NARROW2, T, TB).replace('@HALF@', HALF[TB]).lstrip('\n'))
 w(PAD.lstrip('\n'))
+for T, TB in UT:
+    if want('to_' + T):
+        w(inst(BI_TO_U, T, TB).lstrip('\n'))
 for T, U, TB in ST:
     if want('bi_to_' + T):
         call = 'bn_lemma_numtraits_narrow2_%s(self.bits.digits[0]);' % T if T != 'i128' else ''
         w(inst(BI_TO_S, T, TB).replace('@U@', U).replace('@NARROW2CALL@', call).lstrip('\n'))
+# ---- unit numtraits_conv3: FromPrimitive
+CUR[0] = 3
+w('//! raw bn_numtraits_conv3_note\n' + NOTE)
+w(MOD_LE)
+w(ZERO_DIGITS)
+for T, TB in UT:
+    w(inst(LEMMAS_FROM_U, T, TB).lstrip('\n'))
+w(TCD.lstrip('\n'))
+for T, U, TB in ST:
+    w(inst(LEMMAS_FROM_S, T, TB).replace('@U@', U).lstrip('\n'))
+for T, TB in UT[3:]:
+    if want('from_' + T):
+        w(inst(BU_FROM_U, T, TB).lstrip('\n'))
+for T, U, TB, ARG in [('i64', 'u64', 64, 'int__'), ('i128', 'u128', 128, 'n')]:
+    if want('from_' + T):
+        w(inst(BU_FROM_S, T, TB).replace('@U@', U).replace('@ARG@', ARG).lstrip('\n'))
+for T, TB in UT:
+    if want('from_' + T):
+        w(inst(BI_FROM_U, T, TB).lstrip('\n'))
+for T, U, TB in ST:
+    if want('bi_from_' + T):
+        w(inst(BI_FROM_S, T, TB).replace('@U@', U).lstrip('\n'))
+root = os.path.dirname(os.path.dirname(os.path.abspath(__file__)))
+for k, name in ((1, 'numtraits_conv'), (2, 'numtraits_conv2'), (3, 'numtraits_conv3')):
+    open(os.path.join(root, 'units', name + '.vrs'), 'w').write(OUT[k].getvalue())
